@@ -127,6 +127,30 @@ def c12_tymeout_not_passed():
     return rm.tymeout != 5.0, "server tymeout 5.0 -> remoter.tymeout %r, tymer.duration %r" % (rm.tymeout, rm.tymer.duration)
 
 
+def c12_tls_traffic_does_not_refresh_idle_timer():
+    """RemoterTls.receive / .send overrode the base methods without the refresh: on a TLS server traffic never postponed the
+    idle close"""
+    from hio.core.tcp import serving
+    from hio.base import tyming
+    out = []
+    for op in ("receive", "send"):
+        tymist = tyming.Tymist(tyme=0.0)
+        cs = FakeSock([b"hello"])
+        wrap = serving.RemoterTls.wrap
+        serving.RemoterTls.wrap = lambda self: None      # no TLS wrapping of the scripted socket
+        try:
+            rm = serving.RemoterTls(ha=("127.0.0.1", 1), ca=("127.0.0.1", 2), cs=cs, tymeout=1.0, tymth=tymist.tymen(), context=None)
+        finally:
+            serving.RemoterTls.wrap = wrap
+        rm.cs = cs
+        tymist.tyme = 0.9
+        moved = rm.receive() if op == "receive" else rm.send(b"x")
+        tymist.tyme = 1.1
+        if moved and rm.tymer.expired:
+            out.append("%s moved bytes at tyme 0.9 (tymeout 1.0) but the idle timer is expired at 1.1" % op)
+    return bool(out), "; ".join(out) or "traffic on a TLS connection restarts its idle timer"
+
+
 def c11_replaced_connection_left_open():
     from hio.core.tcp import serving
     srv = serving.Server(ha=("127.0.0.1", 0))
